@@ -162,6 +162,11 @@ CHECKS = {
 }
 
 NOT_APPLICABLE = {
+ 'C13': ('Initial surface reconstruction = Poisson disk sampling with a clock-seeded RNG (rejection loops over growing containers), ball pivoting with hole filling (containers that grow while they are iterated) and ten randomised retries. '
+         'No bound small enough to encode with the IR interpreter still contains a meaningful reconstruction: a cube at the coarsest admissible resolution needs > 10^2 samples and > 10^5 pivot steps, every one with data-dependent branches on symbolic coordinates. '
+         'The leaf predicates alone (ball centre, point-in-circumsphere) would not decide any sentence of C13, so no partial claim is made.'),
+ 'C16': ('The write->read round trip composes std::ofstream / sprintf("%.4e") formatting with a reader made of five std::regex searches, std::getline and std::stod. The regex engine, the stream layer and the decimal formatting live in libstdc++/libc outside the IR; '
+         'decimal formatting and parsing of a symbolic double is not expressible in the solver theories available here, and with concrete geometry the run degenerates into one unit test. The post-tokenisation half of the reader (get_cell_mesh) is covered by C17.'),
 }
 PENDING = 'check not built yet (build phase in progress)'
 
